@@ -188,6 +188,7 @@ func perm(r *vf.Run, specs []tbl.PathSpec) {
 	var first *outcome
 	firstRem := make([]*outcome, len(specs))
 	var firstOrder []int
+	replacements := 0
 	for _, order := range permutations(len(specs)) {
 		var pan any
 		func() {
@@ -228,6 +229,28 @@ func perm(r *vf.Run, specs []tbl.PathSpec) {
 					r.Violate(vf.Violation{Clause: "order-dependence", Features: vf.F("mix", mix, "attrs", union(specs), "phase", "remove"), Detail: fmt.Sprintf("after removing #%d: insertion order %v gives best={%s} ecmp={%s}, a table that only ever held the remaining candidates gives best={%s} ecmp={%s}; candidates %s", specs[j].ID, order, o2.best, o2.ecmp, firstRem[j].best, firstRem[j].ecmp, describe(specs)), Case: k})
 				}
 			}
+			// in-place replacements (what an Adj-RIB-In issues when its import policy is replaced): the table holds
+			// everything but candidate m, then candidate j is replaced by m; the result is the set without j
+			for j := range specs {
+				for m := range specs {
+					if m == j || specs[j].Static || specs[m].Static {
+						continue
+					}
+					lr4 := locRIB.New("c02")
+					for _, i := range order {
+						if i != m {
+							lr4.AddPath(pfx, specs[i].Build())
+						}
+					}
+					lr4.ReplacePath(pfx, specs[j].Build(), specs[m].Build())
+					o4 := observe(lr4, byID)
+					r.Eval(1)
+					replacements++
+					if o4 != *firstRem[j] {
+						r.Violate(vf.Violation{Clause: "order-dependence", Features: vf.F("mix", mix, "attrs", union(specs), "phase", "replace"), Detail: fmt.Sprintf("insertion order %v without #%d, then #%d replaced by #%d gives best={%s} ecmp={%s}; a table that only ever held the resulting candidates gives best={%s} ecmp={%s}; candidates %s", order, specs[m].ID, specs[j].ID, specs[m].ID, o4.best, o4.ecmp, firstRem[j].best, firstRem[j].ecmp, describe(specs)), Case: k})
+					}
+				}
+			}
 		}()
 		if pan != nil {
 			r.Violate(vf.Violation{Clause: "panic-locrib", Features: vf.F("mix", mix), Detail: fmt.Sprintf("Loc-RIB panicked with insertion order %v: %v; candidates %s", order, pan, describe(specs)), Case: k})
@@ -235,8 +258,62 @@ func perm(r *vf.Run, specs []tbl.PathSpec) {
 		}
 	}
 	r.Count("candidate_sets", 1)
+	r.Count("in_place_replacements", replacements)
 	r.Count("permutations", len(permutations(len(specs))))
 	r.Nontrivial("set/" + describe(specs))
+}
+
+// siblings: paths that are identical in every attribute (no id community either) except the peer they were learned
+// from. Inserted in every order; then each one is removed: the survivors must be exactly the others (identified by
+// their peer address) and the best one the lowest peer address, whatever the order was.
+func siblings(r *vf.Run, specs []tbl.PathSpec) {
+	k := kase{Kind: "siblings", Specs: specs}
+	srcs := func(lr *locRIB.LocRIB) (string, string) {
+		rt := lr.Get(pfx)
+		if rt == nil {
+			return "", ""
+		}
+		var all []string
+		for _, p := range rt.Paths() {
+			all = append(all, fmt.Sprintf("%08x", p.BGPPath.BGPPathA.Source.ToUint32()))
+		}
+		sort.Strings(all)
+		best := ""
+		if bp := rt.BestPath(); bp != nil {
+			best = fmt.Sprintf("%08x", bp.BGPPath.BGPPathA.Source.ToUint32())
+		}
+		return strings.Join(all, ","), best
+	}
+	for _, order := range permutations(len(specs)) {
+		for j := range specs {
+			var pan any
+			func() {
+				defer func() { pan = recover() }()
+				lr := locRIB.New("c02")
+				for _, i := range order {
+					lr.AddPath(pfx, specs[i].Build())
+				}
+				lr.RemovePath(pfx, specs[j].Build())
+				var want []string
+				for i := range specs {
+					if i != j {
+						want = append(want, fmt.Sprintf("%08x", specs[i].Source))
+					}
+				}
+				sort.Strings(want)
+				got, best := srcs(lr)
+				r.Eval(1)
+				if got != strings.Join(want, ",") || best != want[0] {
+					r.Violate(vf.Violation{Clause: "order-dependence", Features: vf.F("mix", "bgp", "attrs", "peer_address-only", "phase", "remove-sibling"), Detail: fmt.Sprintf("paths from peers %s differing in nothing else, inserted in order %v, then the one from %08x removed: the Loc-RIB holds the paths from {%s} with best %s, want {%s} with best %s", describe(specs), order, specs[j].Source, got, best, strings.Join(want, ","), want[0]), Case: k})
+				}
+			}()
+			if pan != nil {
+				r.Violate(vf.Violation{Clause: "panic-locrib", Features: vf.F("mix", "siblings"), Detail: fmt.Sprintf("Loc-RIB panicked: %v", pan), Case: k})
+				return
+			}
+		}
+	}
+	r.Count("sibling_sets", 1)
 }
 
 func tieDomain() []tbl.PathSpec {
@@ -283,13 +360,15 @@ func randSpec(rng *rand.Rand, id uint32, allowStatic bool) tbl.PathSpec {
 
 func main() {
 	vf.Main("C02", "exploration", func(r *vf.Run) {
-		r.Rule("(1) exhaustive pairs and triples of the 144-path tie-break sub-domain (identifier{1,2} x ORIGINATOR_ID{0,1,2} x CLUSTER_LIST{absent,empty,1,2} x peer address{3} x next hop{2}); (2) PRNG groups of 10 paths over the full bounded domain (LOCAL_PREF, AS-path length with sequence and set segments, ORIGIN, MED, eBGP flag, static paths), all pairs and triples per group; laws: antisymmetry, transitivity of 'at least as good', ties only between paths with equal decision attributes; (3) candidate sets of 2-4 paths, ALL insertion permutations into a fresh Loc-RIB and all single removals, best path and ECMP set compared by attribute key. distinct_nontrivial = distinct path attribute keys exercised by the laws + distinct candidate sets permuted")
+		r.Rule("(1) exhaustive pairs and triples of the 144-path tie-break sub-domain (identifier{1,2} x ORIGINATOR_ID{0,1,2} x CLUSTER_LIST{absent,empty,1,2} x peer address{3} x next hop{2}); (2) PRNG groups of 10 paths over the full bounded domain (LOCAL_PREF, AS-path length with sequence and set segments, ORIGIN, MED, eBGP flag, static paths), all pairs and triples per group; laws: antisymmetry, transitivity of 'at least as good', ties only between paths with equal decision attributes; (3) candidate sets of 2-4 paths, ALL insertion permutations into a fresh Loc-RIB, all single removals and all in-place replacements of one candidate by another (LocRIB.ReplacePath), best path and ECMP set compared by attribute key; plus sibling sets (2-3 paths identical in everything but the peer address, no id marker): every order, every single removal, survivors identified by peer address. distinct_nontrivial = distinct path attribute keys exercised by the laws + distinct candidate sets permuted")
 		r.Assume("results are compared by attribute key, so paths that are identical in every attribute the decision can read may swap", "no RFC direction is assumed here (C03 does that)")
 		if raw, ok := r.Replaying(); ok {
 			var k kase
 			vf.Decode(raw, &k)
 			if k.Kind == "perm" {
 				perm(r, k.Specs)
+			} else if k.Kind == "siblings" {
+				siblings(r, k.Specs)
 			} else {
 				laws(r, k.Specs, false)
 			}
@@ -325,6 +404,20 @@ func main() {
 				}
 			}
 			perm(r, specs)
+			if i%8 == 0 {
+				// the same session attributes over 2-3 parallel sessions: nothing but the peer address differs
+				base := randSpec(rng, 1, false)
+				base.NoIDComm = true
+				sib := make([]tbl.PathSpec, 2+rng.IntN(2))
+				for j := range sib {
+					sib[j] = base
+					sib[j].ID = uint32(j + 1)
+					sib[j].Source = 0x0a000001 + uint32(j)*uint32(1+rng.IntN(3)) + uint32(rng.IntN(2))<<8
+				}
+				if sib[0].Source != sib[1].Source && (len(sib) < 3 || (sib[2].Source != sib[0].Source && sib[2].Source != sib[1].Source)) {
+					siblings(r, sib)
+				}
+			}
 			if i < 2 {
 				r.Sample(map[string]any{"kind": "candidate-set", "paths": describe(specs)})
 			}
